@@ -179,8 +179,43 @@ def shell_stream(rng, res, n):
                                  % (out, want)))
 
 
+def history_stream(res):
+    """the list is about the document at hand: what an earlier document of
+    the same process declared (theorems, macros, glossary entries, packages)
+    is not declared for the next one"""
+    from props import c17
+    docs_ = [
+        '\\newtheorem{thm}{Theorem}\\begin{thm}T\\end{thm} \\newcommand{\\foo}{F} \\foo',
+        '\\documentclass{article}\\begin{thm}U\\end{thm} \\foo \\bar',
+        '\\usepackage{xcolor}\\textcolor{red}{x} \\newenvironmentx \\begin{thm}V\\end{thm}',
+        '\\documentclass{book}\\usepackage{geometry}\\begin{thm}W\\end{thm}\\begin{lem}X\\end{lem} \\foo',
+        '\\newtheorem{lem}[thm]{Lemma}\\begin{lem}Y\\end{lem} \\bar',
+    ]
+    pool = [c17.mk({'latex': t, 'unkn': True, 'pack': pk}) for t in docs_ for pk in ('*', '')]
+    alone = [c17.run_history([j]) for j in pool]
+    order = list(range(len(pool)))
+    hists = [order, order[::-1], order[::2] + order[1::2]]
+    for h in hists:
+        r, e = c17.run_history([pool[i] for i in h])
+        res.count('history', tuple(h), nontrivial=True)
+        if r is None:
+            res.failures.append(('c19-history', {'history': [pool[i] for i in h]}, 'worker failed: ' + e))
+            continue
+        for k, i in enumerate(h):
+            a = alone[i][0]
+            if a is None:
+                continue
+            if c17.norm(r[k]) != c17.norm(a[0]):
+                res.failures.append((
+                    'c19-history:%d' % i, {'history': [pool[x] for x in h[:k + 1]], 'call': k},
+                    'the list of unknowns of %r after %d other documents is %r, alone in a fresh '
+                    'process %r' % (pool[i]['latex'][:60], k, str(r[k])[:200], str(a[0])[:200])))
+                break
+
+
 def run(tier, seed, build, res):
     rng = random.Random(seed)
+    history_stream(res)
     res.rule = ('parser stream with option unkn forced on (single language) x '
                 'package selections; names tracked by the generator: %r; '
                 'non-trivial = at least one unknown name listed' % TRACKED)
